@@ -494,7 +494,7 @@ fn validator_cfg(b: &Base, supply: &Option<Option<String>>, default_parser: bool
         footer,
         assertion: b.ia.clone(),
         expected: vec![],
-        validators: vec![VSpec { claim: Claim::Custom("k".into(), json!(1)), behave: VBehave::Accept, reg: VReg::ValidateClaim }],
+        validators: vec![VSpec { claim: Claim::Custom("k".into(), json!(1)), behave: VBehave::Accept, reg: VReg::ValidateClaim, second: false }],
         default_parser,
         ..Default::default()
     }
